@@ -855,6 +855,12 @@ pub fn now() -> Instant {
 pub static LOG_RECORDS: std::sync::atomic::AtomicU64 = std::sync::atomic::AtomicU64::new(0);
 pub static LOG_BYTES: std::sync::atomic::AtomicU64 = std::sync::atomic::AtomicU64::new(0);
 static LOGGING_ON: std::sync::atomic::AtomicBool = std::sync::atomic::AtomicBool::new(false);
+/// how often the logger used the library itself, and how often what it did there went wrong (see `Sink::log`)
+pub static LOGGER_REENTRIES: std::sync::atomic::AtomicU64 = std::sync::atomic::AtomicU64::new(0);
+pub static LOGGER_TROUBLE: std::sync::atomic::AtomicU64 = std::sync::atomic::AtomicU64::new(0);
+thread_local! {
+    static LOGGER_STATE: std::cell::Cell<(bool, u64)> = const { std::cell::Cell::new((false, 0)) };
+}
 
 struct Sink;
 
@@ -876,6 +882,42 @@ impl log::Log for Sink {
         let _ = std::fmt::write(&mut w, *record.args());
         LOG_RECORDS.fetch_add(1, Ordering::Relaxed);
         LOG_BYTES.fetch_add(w.0, Ordering::Relaxed);
+        // A logger is application code, and an application's logger may itself USE THE LIBRARY (one that mirrors its log to
+        // a sign does): every 32nd record of a thread, this one configures a virtual sign of its own with another type's
+        // block, encodes and decodes a frame, converts a message and draws on a page — while the library call that logged
+        // is still in progress on this thread.
+        LOGGER_STATE.with(|st| {
+            let (busy, n) = st.get();
+            if busy {
+                return;
+            }
+            st.set((false, n.wrapping_add(1)));
+            if n % 32 != 31 {
+                return;
+            }
+            st.set((true, n.wrapping_add(1)));
+            let k = (n / 32) as usize;
+            let r = std::panic::catch_unwind(|| {
+                use flipdot_core::{Address, Data, Frame, Message, MsgType, Offset, Operation, Page, PageId};
+                let ty = crate::refs::TYPES[k % crate::refs::TYPES.len()].ty;
+                let mut sign = flipdot_testing::VirtualSign::new(Address(0x0066), flipdot::PageFlipStyle::Manual);
+                let _ = sign.process_message(&Message::RequestOperation(Address(0x0066), Operation::ReceiveConfig));
+                let _ = sign.process_message(&Message::SendData(Offset(0), Data::try_new(ty.to_bytes().to_vec()).expect("16 bytes")));
+                let _ = sign.process_message(&Message::DataChunksSent(flipdot_core::ChunkCount(1)));
+                let ok_type = sign.sign_type() == Some(ty);
+                let f = Frame::new(Address(0x6600 | (k as u16 & 0xFF)), MsgType(0), Data::try_new(vec![k as u8; k % 20]).expect("<=255"));
+                let ok_frame = Frame::from_bytes(&f.to_bytes_with_newline()).map(|g| g == f).unwrap_or(false) && Frame::from(Message::from(f.clone())) == f;
+                let mut p = Page::new(PageId(k as u8), 9 + (k % 7) as u32, 3 + (k % 19) as u32);
+                p.set_pixel(k as u32 % 9, k as u32 % 3, true);
+                let ok_page = p.get_pixel(k as u32 % 9, k as u32 % 3);
+                ok_type && ok_frame && ok_page
+            });
+            LOGGER_REENTRIES.fetch_add(1, Ordering::Relaxed);
+            if !matches!(r, Ok(true)) {
+                LOGGER_TROUBLE.fetch_add(1, Ordering::Relaxed);
+            }
+            st.set((false, n.wrapping_add(1)));
+        });
     }
     fn flush(&self) {}
 }
